@@ -49,7 +49,7 @@ ASSUMPTIONS = [
 
 SETTINGS = {'disk_min_file_size': 8}
 TRACE_RECORDS = []
-EXPECTED_SIGS = ('abort_lost_file', 'abort_lost_file_pop', 'abort_orphan_file', 'iter_not_atomic')
+EXPECTED_SIGS = ('abort_lost_file', 'abort_lost_file_pop', 'abort_orphan_file', 'iter_not_atomic', 'uncommitted_removal_visible')
 OK_EXC = ('Timeout', 'KeyError', 'TypeError', 'IndexError', 'ValueError')
 WRITE_SQL = ('sql:INSERT', 'sql:UPDATE', 'sql:DELETE', 'sql:UPDATE-SETTINGS', 'sql:COMMIT', 'sql:ROLLBACK')
 RELEASING = ('set', 'setitem', 'add', 'delete', 'delitem', 'incr', 'decr', 'pop', 'pull', 'popleft', 'popitem', 'clear', 'append', 'appendleft',
@@ -220,14 +220,33 @@ def check_run(r, case, stats):
     if res is None:
         sig = 'block_not_atomic' if spans else 'not_linearizable'
         multi = ('iter', 'items', 'reversed')       # lock-free multi-statement reads: finding iter_not_atomic of C05
+        # reads of OTHER clients that hit a vanished value file while a block containing a file-releasing call was open
+        def failed_open(evs):
+            return any(e == 'file:open-read' and (i + 1 == len(evs) or evs[i + 1] != 'file:read') for i, e in enumerate(evs))
+        early = set()
+        for b, inner, closing, abort in spans:
+            if closing is None or not any(q['op'] in RELEASING for q in inner):
+                continue
+            lo, hi = b['last'], closing['last'] if closing.get('last') is not None else len(log)
+            for recs in r['calls'][1:]:
+                for rec in recs:
+                    if rec.get('first') is not None and rec['first'] <= hi and rec['last'] >= lo and failed_open(rec.get('events', [])):
+                        early.add(id(rec['call']))
         if linearize(acts, init, None, tolerate=True) is not None:
             sig = 'final_contents_unexplained'
+        elif early and linearize(acts, init, fin, tolerate=True, wild=lambda c: id(c) in early) is not None:
+            sig = 'uncommitted_removal_visible'
         elif any(c['op'] in multi for a in acts if not a.abort and len(a.steps) == 1 for c, _ in a.steps) and \
                 linearize([a for a in acts], init, fin, tolerate=True,
                           wild=lambda c: c['op'] in multi and not any(c is cc for b, inner, _, _ in spans for cc in [q['call'] for q in inner])) is not None:
             sig = 'iter_not_atomic'
-        out.append((sig, 'no order with the block as one atomic action explains the results (%s) and the final contents %s' % (
-            '; '.join('c%s %s -> %s' % (a.aid, a.label, [o[1] for _, o in a.steps]) for a in acts), [[x[0], x[1], x[2]] for x in snap['items']])))
+        if sig == 'uncommitted_removal_visible':
+            out.append((sig, 'a reader overlapping an open block found the value file of an item already removed by a call inside the block '
+                        '(the file is unlinked when the inner call returns, before the block commits): it saw a state that is neither before '
+                        'nor after the block; results: %s' % '; '.join('c%s %s -> %s' % (a.aid, a.label, [o[1] for _, o in a.steps]) for a in acts)))
+        else:
+            out.append((sig, 'no order with the block as one atomic action explains the results (%s) and the final contents %s' % (
+                '; '.join('c%s %s -> %s' % (a.aid, a.label, [o[1] for _, o in a.steps]) for a in acts), [[x[0], x[1], x[2]] for x in snap['items']])))
     if out:
         out = classify(out, r, case, snap, spans)
     return log_viol + out
@@ -277,7 +296,9 @@ def classify(out, r, case, snap, spans):
         if kind == 'deque':
             return cand_all
         return call.get('key') in cand or (bool(cand) and call['op'] in ('items', 'popitem', 'peekitem'))
-    if linearize(acts, init, final_matches(kind, snap, ignore_values=cand), tolerate=True, wild=wild) is None:
+    # (a Deque silently drops an element whose file is gone when it is pulled, so its final length is unconstrained too)
+    fin = None if cand_all else final_matches(kind, snap, ignore_values=cand)
+    if linearize(acts, init, fin, tolerate=True, wild=wild) is None:
         return out
     new = []
     # evidence that a value file really was lost: a row without file at the end, or a lookup of a candidate key that
@@ -287,7 +308,11 @@ def classify(out, r, case, snap, spans):
                        (rec.get('result') == MISS or rec.get('exc') in ('KeyError', 'IndexError')) and
                        (cand_all or rec['call'].get('key') in cand or rec['op'] in ('items',))
                        for recs in r['calls'] for rec in recs if not rec.get('skipped'))
-    evidence_lost = bool(lost_now) or 'missing_file' in sigs or missed_after
+    def failed_open(evs):
+        return any(e == 'file:open-read' and (i + 1 == len(evs) or evs[i + 1] != 'file:read') for i, e in enumerate(evs))
+    open_failed_after = any(rec.get('last') is not None and rec['last'] > rollback_step and failed_open(rec.get('events', []))
+                            for recs in r['calls'] for rec in recs if not rec.get('skipped'))
+    evidence_lost = bool(lost_now) or 'missing_file' in sigs or missed_after or open_failed_after
     if evidence_lost and (cand or cand_all):
         popping = any(o in POPPING for o in body_ops) and not any(o in RELEASING and o not in POPPING for o in body_ops)
         new.append(('abort_lost_file_pop' if popping else 'abort_lost_file',
@@ -471,6 +496,18 @@ def witnesses():
         ('abort_lost_file_pop', solo('deque', [{'op': 'append', 'value': BIG}], [{'op': 'popleft'}], [{'op': 'len'}, {'op': 'iter'}])),
         ('abort_lost_file', solo('index', [{'op': 'setitem', 'key': 'k', 'value': BIG}], [{'op': 'setitem', 'key': 'k', 'value': 5}], [{'op': 'contains', 'key': 'k'}, {'op': 'get', 'key': 'k'}])),
         ('abort_orphan_file', solo('cache', [], [{'op': 'set', 'key': 'k', 'value': BIG, 'retry': True}], rb)),
+        # a COMMITTED Deque block {popleft; append}: the reader runs after popleft unlinked the file, before the COMMIT
+        ('uncommitted_removal_visible',
+         {'check': 'block', 'kind': 'deque', 'mode': 'own', 'setup': [{'op': 'append', 'value': BIG}], 'flavour': 'commit', 'shards': 2,
+          'programs': [[{'op': 'begin_block'}, {'op': 'popleft'}, {'op': 'append', 'value': 'new'}, {'op': 'end_block'}], [{'op': 'iter'}, {'op': 'len'}]],
+          'schedule': [0] * 7 + [1] * 12 + [0] * 20}),
+        # a COMMITTED Cache block {delete a; set c}: the reader's iteration reads MAX(rowid) before and its page after the COMMIT
+        ('iter_not_atomic',
+         {'check': 'block', 'kind': 'cache', 'mode': 'own', 'setup': [{'op': 'set', 'key': 'a', 'value': 1}, {'op': 'set', 'key': 'b', 'value': 2}],
+          'flavour': 'commit', 'shards': 2,
+          'programs': [[{'op': 'begin_block'}, {'op': 'delete', 'key': 'a', 'retry': True}, {'op': 'set', 'key': 'c', 'value': 3, 'retry': True}, {'op': 'end_block'}],
+                       [{'op': 'iter'}]],
+          'schedule': [1] + [0] * 30 + [1] * 5}),
     ]
 
 
@@ -509,7 +546,7 @@ def new_stats():
 
 def run_case(ctx, res, stats, case, label, record=True):
     kind, mode = case['kind'], case['mode']
-    d = ctx.scratch('c06')
+    d = concdrv.scratch(ctx, 'c06')
     clock = instr.Clock(c05.NOW)
     before = None
     # the state before the block, through the API (quiescent: taken after the setup, before any client starts)
@@ -571,8 +608,8 @@ def run(ctx, big=False):
             res.extra.setdefault('witnesses_no_longer_failing', []).append(sig)
     for case in corpus():
         run_case(ctx, res, stats, case, 'corpus')
-    plan = [('cache', 260), ('deque', 60), ('index', 60), ('fanout', 50)] if not thorough else \
-        [('cache', 2000), ('deque', 500), ('index', 500), ('fanout', 400)]
+    plan = [('cache', 600), ('deque', 150), ('index', 150), ('fanout', 100)] if not thorough else \
+        [('cache', 5000), ('deque', 1500), ('index', 1500), ('fanout', 1000)]
     for kind, n in plan:
         for k in range(n):
             case = gen_case(ctx.rng, kind)
